@@ -19,6 +19,8 @@ EXCS = ["Classpath-exception-2.0", "LLVM-exception"]
 
 def marker_atom(rng):
     v, l = rng.choice(VARS), rng.choice(LITS)
+    if rng.random() < 0.2:
+        v, l = "extra", rng.choice(["A_b", "Foo.Bar", "x--y", "a-b", "X"])
     q = rng.choice("'\"")
     lit = q + l + q
     a, b = (v, lit) if rng.random() < 0.8 else (lit, v)
